@@ -5,9 +5,11 @@
 package typecorpus
 
 import (
+	"encoding/json"
 	"log/slog"
 	"math/big"
 	"reflect"
+	"sort"
 	"time"
 )
 
@@ -271,6 +273,52 @@ func (c Custom) MarshalJSON() ([]byte, error) {
 	return []byte(`"seven"`), nil
 }
 func (c *Custom) UnmarshalJSON(b []byte) error { c.V = len(b); return nil }
+
+// Types of kinds For cannot translate by itself (non-string map keys, complex numbers) that marshal through their own
+// MarshalJSON and get a TypeSchemas entry: the caller's entry decides, with or without IgnoreInvalidTypes.
+type IDSet map[int]bool
+
+func (s IDSet) MarshalJSON() ([]byte, error) {
+	ids := make([]int, 0, len(s))
+	for id := range s {
+		ids = append(ids, id)
+	}
+	sort.Ints(ids)
+	return json.Marshal(ids)
+}
+func (s *IDSet) UnmarshalJSON(b []byte) error {
+	var ids []int
+	if err := json.Unmarshal(b, &ids); err != nil {
+		return err
+	}
+	*s = IDSet{}
+	for _, id := range ids {
+		(*s)[id] = true
+	}
+	return nil
+}
+
+type Point complex128
+
+func (p Point) MarshalJSON() ([]byte, error) {
+	return json.Marshal([2]float64{real(complex128(p)), imag(complex128(p))})
+}
+func (p *Point) UnmarshalJSON(b []byte) error {
+	var a [2]float64
+	if err := json.Unmarshal(b, &a); err != nil {
+		return err
+	}
+	*p = Point(complex(a[0], a[1]))
+	return nil
+}
+
+type WithInvalidKinds struct {
+	IDs  IDSet            `json:"ids"`
+	P    Point            `json:"p"`
+	PP   *Point           `json:"pp"`
+	Many map[string]IDSet `json:"many"`
+	N    int              `json:"n"`
+}
 
 type WithCustom struct {
 	C  Custom            `json:"c"`
